@@ -21,4 +21,6 @@ VARIANTS = [
     V('benign-fkjoint-named-prefix', A, ("jh = self._joint_homes_global[i].TM\n        end_effector_pos = tm(fmr.FKinSpace(jh,\n            self.screw_list[0:6, 0:i+1], theta[0:i+1]))", "jh = self._joint_homes_global[i].TM\n        k = i + 1\n        screws = self.screw_list[0:6, 0:k]\n        end_effector_pos = tm(fmr.FKinSpace(jh, screws, theta[0:k]))"), 'silent'),
     V('fklink-whole-theta-on-protect-path', A, [("theta = self.thetaProtector(theta)\n        end_effector_pos =  tm(fmr.FKinSpace(self._link_homes_global[i].TM,\n            self.screw_list[0:6, 0:i+1], theta[0:i+1]))", "theta = self.thetaProtector(theta[0:i+1])\n        end_effector_pos =  tm(fmr.FKinSpace(self._link_homes_global[i].TM,\n            self.screw_list[0:6, 0:i+1], theta))")], 'fire', 'passed whole'),
     V('benign-fklink-slice-before-clamp', A, [("if not protect:\n            theta = self.thetaProtector(theta)\n        end_effector_pos =  tm(fmr.FKinSpace(self._link_homes_global[i].TM,\n            self.screw_list[0:6, 0:i+1], theta[0:i+1]))", "theta = theta[0:i+1]\n        if not protect:\n            theta = self.thetaProtector(theta)\n        end_effector_pos =  tm(fmr.FKinSpace(self._link_homes_global[i].TM,\n            self.screw_list[0:6, 0:i+1], theta))")], 'silent'),
+    V('jacobianlink-whole-screw-table-with-theta-prefix', A, ("t_js = fmr.JacobianSpace(self.screw_list[0:6, 0:i+1], theta[0:i+1])", "t_js = fmr.JacobianSpace(self.screw_list, theta[0:i+1])[0:6, 0:i+1]"), 'fire', 'R17.2'),
+    V('benign-jacobianlink-full-row-slice', A, ("t_js = fmr.JacobianSpace(self.screw_list[0:6, 0:i+1], theta[0:i+1])", "t_js = fmr.JacobianSpace(self.screw_list[:, 0:i+1], theta[0:i+1])"), 'silent'),
 ]
